@@ -491,3 +491,20 @@ Proof.
   rewrite create_timepoint_num; cbn [i_date i_time i_zone]; [|apply bindings_digit_env; assumption|apply bindings_digit_env; assumption].
   rewrite ZN. cbn [pbind]. rewrite point_num_trunc by auto. cbv zeta. rewrite ZA. reflexivity.
 Qed.
+
+(* ------------------------------------------------------------------ *)
+(* 5. vocabulary of the Examples of Props/C07Ext.v                     *)
+(* ------------------------------------------------------------------ *)
+(* parse with dump_as_parsed, then str() *)
+Definition pstr (md : mode) (cfg : pcfg) (s : string) : option dres :=
+  match parse_text md cfg s true with
+  | POk p => match ptp_to_tp p with Some q => Some (do_dump md (p_ned p) q (p_fmt p)) | None => None end
+  | PErr _ => None end.
+
+Definition inb (f : form) (L : list form) : bool := existsb (form_eqb f) L.
+Definition F_YM : form := Eval vm_compute in pick "basic" "CCYY-MM" DATE_FORMS_2.
+Definition F_CC : form := Eval vm_compute in pick "basic" "CC" DATE_FORMS_2.
+Definition F_ORDX3_BASIC : form := Eval vm_compute in pick "basic" "+XCCYYDDD" DATE_FORMS_3.
+Definition F_HD_BASIC : form := Eval vm_compute in pick "basic" "hh.ii" TIME_FORMS.
+Definition F_TMD_EXT : form := Eval vm_compute in pick "extended" "--MM-DD" DATE_FORMS_2.
+Definition F_TMS_EXT : form := Eval vm_compute in pick "extended" "-mm:ss,tt" TIME_FORMS.
